@@ -26,7 +26,8 @@ for f in sys.argv[1:]:
 rounds = {"ab": "Round 1", "cd": "Round 2 (sequences of calls, configuration / time zone, cooperating edits)",
           "ef": "Round 3 (order of effects, carried state, loop and buffer boundaries)",
           "gh": "Round 4 (alternative entry points and protocol variants, range ends, error paths, rare configuration, second use)",
-          "ij": "Round 5 (configuration the tests never vary, helper methods, package-level state, integer widths, aliasing, defaulting rules)"}
+          "ij": "Round 5 (configuration the tests never vary, helper methods, package-level state, integer widths, aliasing, defaulting rules)",
+          "kl": "Round 6 (session 4: C13, C16, C18 only - transition days, values in two locations, a layout no shipped message uses)"}
 out = ["# Seeded changes and the checks that catch them", "",
        "Every change was produced by an independent sub-agent that was given only the text of one property and its own scratch worktree of /repo, confirmed with `tools/seedconfirm.sh <seed-dir> <scratch worktree>` (demo passes on the clean tree; with the patch: builds, the 431 existing tests pass, the demo fails) and run with `tools/seedrun.sh <seed-dir> <property> quick` (patch applied to a scratch worktree of /repo HEAD, `VERIF_REPO` pointing the check at it; `tools/seedsweep.sh` runs them all). DETECTED = the property's quick check exits 1 with a VIOLATION line whose counterexample was replayed against the natively compiled patched code.", ""]
 tot = det = 0
